@@ -89,6 +89,18 @@ CATALOGUE = [
       [(G, "        chi2_prev = -1.0", "        chi2_prev = self._chi2 if self._chi2 is not None else -1.0", 1),
        (G, "            if i > 0:\n", "            if i > 0 or chi2_prev >= 0:\n", 1)], ["C12-T5", "optimize-semantics"]),
     V("num-iterations-off-by-one", ["C12"], "break", [(G, "                    ret.num_iterations = i\n", "                    ret.num_iterations = i + 1\n", 1)], "num_iterations"),
+    # rounds 5-6: an equivalent exact solver is the solve; a rescaled step is not the Gauss-Newton step; a reader that drops an
+    # unterminated last line; a cached rotation matrix; a purely relative comparison
+    V("solver-splu-twin", ["C03", "C04", "C06", "C07", "C12", "C15"], "twin",
+      [(G, "from scipy.sparse.linalg import spsolve", "from scipy.sparse.linalg import splu", 1),
+       (G, "            dx = spsolve(self._hessian, -self._gradient)  # pylint: disable=invalid-unary-operand-type",
+        "            dx = splu(self._hessian.tocsc()).solve(-self._gradient)", 1)]),
+    V("step-halved", ["C03", "C04", "C07"], "break",
+      [(G, "            dx = spsolve(self._hessian, -self._gradient)  # pylint: disable=invalid-unary-operand-type",
+        "            dx = spsolve(self._hessian, -self._gradient)  # pylint: disable=invalid-unary-operand-type\n            dx *= 0.5", 1)],
+      ["optimize-semantics", "step-modified"]),
+    V("reader-drops-unterminated-last-line", ["C14"], "break",
+      [(G, "            for line in f.readlines():", "            for line in f.read().split(\"\\n\")[:-1]:", 1)], "no-final-newline"),
     V("solve-sign", ["C03", "C04"], "break", [(G, "dx = spsolve(self._hessian, -self._gradient)", "dx = spsolve(self._hessian, self._gradient)", 1)], "C03-d"),
     V("update-wrong-slice", ["C03"], "break",
       [(G, "v.pose += dx[v.gradient_index: v.gradient_index + v.pose.COMPACT_DIMENSIONALITY]", "v.pose += dx[v.gradient_index: v.gradient_index + len(v.pose)]", 1)], ["update-step", "update-semantic"]),
